@@ -669,3 +669,82 @@ func HasRepeatedGram(unit []byte, g int) bool {
 	}
 	return !cyclicGramsDistinct(seq, g)
 }
+
+// DeepDistance builds data whose matches, found by a hash-of-four-bytes match
+// finder that remembers the newest position per hash, use about nsym distance
+// symbols with frequencies in which each exceeds the sum of all rarer ones
+// (1, 1, 2+, 4+, ...): the unrestricted distance Huffman tree of the block is a
+// chain about nsym deep, beyond the 15-bit limit for nsym >= 17. first is the
+// rarest symbol's number minus nsym-1 (symbols first..first+nsym-1 are used, the
+// short distances most often). With long > 0, that many matches of length
+// 67..257 at the rarest distances are added (a rare length symbol meeting a rare
+// distance symbol). total is the final length (incompressible filler behind).
+func DeepDistance(r *Rand, nsym, first, long, total int) Data {
+	lo := []int{1, 2, 3, 4, 5, 7, 9, 13, 17, 25, 33, 49, 65, 97, 129, 193, 257, 385, 513, 769, 1025, 1537, 2049, 3073, 4097, 6145, 8193, 12289, 16385, 24577}
+	hi := []int{1, 2, 3, 4, 6, 8, 12, 16, 24, 32, 48, 64, 96, 128, 192, 256, 384, 512, 768, 1024, 1536, 2048, 3072, 4096, 6144, 8192, 12288, 16384, 24576, 32768}
+	w := []int{1, 1}
+	for len(w) < nsym {
+		sum := 0
+		for _, v := range w[:len(w)-1] {
+			sum += v
+		}
+		w = append(w, sum+sum/20+2)
+	}
+	type task struct{ sym, ln int }
+	var tasks []task
+	for i, n := range w {
+		s := first + nsym - 1 - i
+		for j := 0; j < n; j++ {
+			tasks = append(tasks, task{s, 4})
+		}
+	}
+	for j := 0; j < long; j++ {
+		tasks = append(tasks, task{first + nsym - 1 - r.Intn(3), r.Range(67, 257)})
+	}
+	for i := len(tasks) - 1; i > 0; i-- {
+		j := r.Intn(i + 1)
+		tasks[i], tasks[j] = tasks[j], tasks[i]
+	}
+	data := make([]byte, 0, total+300)
+	last := map[uint32]int{}
+	key := func(q int) uint32 {
+		return uint32(data[q]) | uint32(data[q+1])<<8 | uint32(data[q+2])<<16 | uint32(data[q+3])<<24
+	}
+	push := func(c byte) {
+		data = append(data, c)
+		if n := len(data); n >= 4 {
+			last[key(n-4)] = n - 4
+		}
+	}
+	lead := hi[first+nsym-1] + 60
+	for i := 0; i < lead; i++ {
+		push(byte(r.Intn(256)))
+	}
+	for _, t := range tasks {
+		p := len(data)
+		for try := 0; try < 200; try++ {
+			d := lo[t.sym] + r.Intn(hi[t.sym]-lo[t.sym]+1)
+			q := p - d
+			if q < 0 || q+t.ln > p {
+				continue
+			}
+			if last[key(q)] != q {
+				continue // not the newest occurrence of these four bytes
+			}
+			for i := 0; i < t.ln; i++ {
+				push(data[q+i])
+			}
+			// a separator that ends the match there
+			c := byte(r.Intn(256))
+			for q+t.ln < p && c == data[q+t.ln] {
+				c++
+			}
+			push(c)
+			break
+		}
+	}
+	for len(data) < total {
+		push(byte(r.Intn(256)))
+	}
+	return Data{Desc: fmt.Sprintf("deep-distance-tree/%dsym-from-%d/long%d/%d", nsym, first, long, len(data)), B: data}
+}
